@@ -67,7 +67,9 @@ CODES_Q = (0, 1, 2, 32, 33, 64, 65, 127, 128, 129, 255)
 
 USAGE = [['--no-such-option', 'c.case'], [], ['no-such-file.case'], ['--actor'], ['--keep', '--act'],
          ['--preprocessor'], ['--suite'], ['--suite', 'no-such.suite', 'c.case'], ['c.case', 'extra-arg'],
-         ['--keep', 'no-such-file.case'], ['--act', 'no-such-file.case'], ['-x']]
+         ['--keep', 'no-such-file.case'], ['--act', 'no-such-file.case'], ['-x'],
+         # a FILE that cannot be reached: a symbolic-link loop, a name below a regular file
+         ['loop.case'], ['--suite', 'loop.suite', 'c.case'], ['c.case/x.case'], ['--keep', 'loop.case'], ['--act', 'loop.case'], ['--suite', 'c.case/s.suite', 'c.case']]
 
 
 def prepare(tier):
@@ -151,6 +153,8 @@ def run(case) -> Result:
     if case[0] == 'usage':
         argv = USAGE[case[1]]
         w.write('c.case', '[act]\n% atc\n')
+        for n in ('loop.case', 'loop.suite'):
+            os.symlink(n, str(w.home / n))
         o = cli.run(argv, mp=mp)
         errs = []
         if o.exc and 'SystemExit' not in o.exc:
